@@ -368,6 +368,8 @@ pub struct Ctx {
     /// Under Miri only: `want` accepts every `slow_stride`-th of this shard's cases (lets a
     /// module thin out an enumerated stream for the interpreter without changing it elsewhere).
     pub slow_stride: u64,
+    /// Under AddressSanitizer only: same thinning for the (3-4x slower) asan profile.
+    pub asan_stride: u64,
 }
 
 pub struct CtxArgs {
@@ -422,6 +424,7 @@ impl Ctx {
             cur: (String::new(), 0),
             max_violations: 40,
             slow_stride: 1,
+            asan_stride: 1,
         }
     }
 
@@ -480,6 +483,7 @@ impl Ctx {
                 !stream.starts_with("iso.")
                     && idx % self.nshards == self.shard
                     && (self.slow_stride <= 1 || self.profile != Profile::Miri || (idx / self.nshards) % self.slow_stride == 0)
+                    && (self.asan_stride <= 1 || self.profile != Profile::Asan || (idx / self.nshards) % self.asan_stride == 0)
             }
         };
         if w {
